@@ -160,6 +160,25 @@ class FromFnM(Model):
         return self
 
 
+class ChunksM(Model):
+    """slice::chunks(c) for a concrete chunk size: yields references to consecutive sub-slices of at most c elements"""
+
+    def __init__(self, seq, pos, c):
+        self.seq, self.pos, self.c = seq, pos, c
+
+    def next(self, ip):
+        if not ip.path.branch(self.seq.n > self.pos, 'chunks.next'):
+            return self, NONE
+        cap = len(self.seq.elems)
+        rest = self.seq.n - self.pos
+        sub = Seq(list(self.seq.elems[self.pos:self.pos + self.c]), z3.simplify(z3.If(rest < self.c, rest, self.c)), 'vec')
+        return ChunksM(self.seq, self.pos + self.c, self.c), some(Ref(Loc(Cell(sub, 'chunk'))))
+        yield
+
+    def ite(self, c, o):
+        return self
+
+
 class TakeM(Model):
     """Iterator::take(k) over an iterator that must stay lazy (its next() has side effects)"""
 
@@ -904,6 +923,16 @@ def install(ctx):
         if cn is None:
             ip.path.assume(n.t <= cap)        # stated bound: at most `unroll` copies are looked at
         return Seq([x] * cap, n.t, 'vec')
+
+    @M.reg('slice::chunks', '[T]::chunks', 'chunks')
+    def slice_chunks(ip, pc, args, dt):
+        sv = args[0]
+        while isinstance(sv, Ref):
+            sv = read_loc(sv.loc)
+        c = concrete_int(args[1].t)
+        if not isinstance(sv, Seq) or c is None or c <= 0:
+            raise Unsupported('chunks over %r with size %r' % (sv, args[1]))
+        return ChunksM(sv, 0, c)
 
     @M.reg('Vec::as_slice', 'Vec::as_mut_slice', 'VecDeque::make_contiguous')
     def vec_as_slice(ip, pc, args, dt):
